@@ -88,9 +88,16 @@ TABLE: List[Entry] = [
     ("R-INIT-COHERENCE", None, None, {"C13"}),
     ("R-SENTINEL", None, "returns-non-decision-domain", {"C01", "C02", "C04", "C09", "C16"}),
     ("R-SENTINEL", None, None, {"C04", "C16"}),
+    ("R-OPTIONAL-ZERO", None, None, {"C01", "C02", "C03", "C13"}),
     # ---- wake-up primitive ---------------------------------------------------------------------------------
     ("R-WAKEUP", None, None, {"C01", "C02", "C08"}),
     # ---- optimisation loop: which clauses are also termination conditions
+    # the worker side of a distributed optimisation (C11: same optimal value as the sequential solver)
+    ("R-TIGHTEN", "_and_queue", "reset-then-tighten", {"C03", "C04", "C11"}),
+    ("R-TIGHTEN", "_and_queue", "emptiness-guard", {"C03", "C04", "C11"}),
+    ("R-TIGHTEN", "_and_queue", "tighten-call", {"C03", "C04", "C11"}),
+    ("R-TIGHTEN", "_and_queue", "tighten-args", {"C03", "C04", "C11"}),
+    ("R-TIGHTEN", "_and_queue", None, {"C03", "C11"}),
     ("R-TIGHTEN", None, "reset-then-tighten", {"C03", "C04"}),
     ("R-TIGHTEN", None, "emptiness-guard", {"C03", "C04"}),
     ("R-TIGHTEN", None, "tighten-call", {"C03", "C04"}),
